@@ -401,6 +401,40 @@ fn component_cases() -> Vec<(&'static str, Box<dyn Fn() -> Result<u64, Bad> + Se
         }
         Ok(n)
     });
+    case!("signal adaptors over wide frames ([i16;32], [f32;16], [u8;9]) chained: scale/offset/add/mul/clip/delay/inspect/map/zip_map/per-channel", || {
+        fn chain<F>(mk: fn(usize) -> F, sg: fn(usize) -> F::Signed, fl: fn(usize) -> F::Float, g: <F::Sample as Sample>::Float, o: <F::Sample as Sample>::Signed, t: <F::Sample as Sample>::Signed) -> Result<u64, Bad>
+        where
+            F: Frame + 'static,
+        {
+            let (a, _) = Gen::new(mk);
+            let (b, _) = Gen::new(sg);
+            let (c, _) = Gen::new(fl);
+            let (d, _) = Gen::new(mk);
+            let mut seen = 0usize;
+            let mut sig = a
+                .scale_amp(g)
+                .offset_amp(o)
+                .add_amp(b)
+                .mul_amp(c)
+                .clip_amp(t)
+                .delay(3)
+                .zip_map(d, |x: F, y: F| x.zip_map(y, |p, q| if p > q { p } else { q }))
+                .map(|f: F| f.scale_amp(g))
+                .scale_amp_per_channel(F::Float::from_fn(|_| g))
+                .offset_amp_per_channel(F::Signed::from_fn(|_| o))
+                .inspect(move |_| seen += 1);
+            let mut n = 0;
+            for k in 0..300 {
+                quiet(&format!("wide adaptor chain next() #{k}"), || (sig.next(), sig.is_exhausted()))?;
+                n += 1;
+            }
+            Ok(n)
+        }
+        let mut n = chain::<[i16; 32]>(|i| [(i % 50) as i16 * 20; 32], |i| [(i % 7) as i16; 32], |i| [0.25 + (i % 3) as f32 * 0.25; 32], 0.5, 3, 400)?;
+        n += chain::<[f32; 16]>(|i| [(i % 50) as f32 * 0.01; 16], |i| [(i % 7) as f32 * 0.01; 16], |i| [0.25 + (i % 3) as f32 * 0.25; 16], 0.5, 0.125, 0.3)?;
+        n += chain::<[u8; 9]>(|i| [128 + (i % 20) as u8; 9], |i| [(i % 5) as i8; 9], |_| [0.5; 9], 0.5, 2, 10)?;
+        Ok(n)
+    });
     case!("bus: backlog stops growing when outputs are pulled in step", || {
         let mut n = 0;
         for k in 1..=3usize {
